@@ -682,20 +682,39 @@ func genC15H264(x *Ctx) {
 			})
 		}
 	}
-	// (a') a LARGE abandoned unit: all fragments of a unit of 70 000 bytes (quick) / of 2^20-16 and
-	//      2^20+4000 bytes (thorough) except the end fragment, then an intact fragmented frame — a
-	//      bound on the reassembly buffer must not make the next start fragment fail (seed C15-r2-3)
-	sizes := []int{70000}
+	// (a') a LARGE abandoned unit: the fragments of a unit whose end never arrives, totalling K-2
+	//      bytes for K = 2^16 (quick) and 2^16 … 2^20 (thorough), then an intact fragmented frame:
+	//      a bound on the reassembly buffer near K must not make the next start fragment fail or
+	//      lose bytes (seed C15-r2-3 used K = 1 MiB)
+	ks := []int{1 << 16}
 	if x.Thorough() {
-		sizes = append(sizes, 1<<20-16, 1<<20+4000)
+		ks = []int{1 << 16, 1 << 17, 1 << 18, 1 << 19, 1 << 20}
 	}
-	for _, size := range sizes {
-		size := size
+	for _, k := range ks {
+		k := k
 		x.Case(func(c *Case) {
-			pay := &codecs.H264Payloader{}
-			big := pay.Payload(1200, append([]byte{0, 0, 1}, h264Nal(c.R, 5, size)...))
+			var pre [][]byte
+			left := k - 2
+			first := true
+			for left > 0 {
+				n := 1198
+				if n > left {
+					n = left
+				}
+				hdr := byte(0x05)
+				if first {
+					hdr |= 0x80
+					first = false
+				}
+				pre = append(pre, append([]byte{0x7c, hdr}, c.R.Bytes(n)...))
+				left -= n
+			}
 			c.Tag("large-abandoned-unit")
-			runH264C15(c, c.R.Bool(), big[:len(big)-1], h264Frame(c.R, 12))
+			// the intact frame begins with its own start fragment (a unit in three FU-A fragments),
+			// followed by a single NAL unit
+			next := [][]byte{append([]byte{0x7c, 0x85}, c.R.Bytes(40)...), append([]byte{0x7c, 0x05}, c.R.Bytes(40)...),
+				append([]byte{0x7c, 0x45}, c.R.Bytes(7)...), append([]byte{0x41}, c.R.Bytes(9)...)}
+			runH264C15(c, c.R.Bool(), pre, next)
 		})
 	}
 	// (b) arbitrary byte strings as prehistory, then an intact frame
